@@ -106,7 +106,7 @@ type CanonOpts struct {
 	ZeroLeafAbsent bool
 }
 
-func zeroCanon(c string) bool { return c == "0" || c == "false" || c == `""` }
+func zeroCanon(c string) bool { return c == "0" || c == "false" || c == `""` || c == "[]" }
 
 func (t *Tree) Canon(defs []meta.Definition, o CanonOpts) string {
 	var sb strings.Builder
